@@ -161,6 +161,11 @@ Qed.
 Lemma cg_tr g s : trace (close_gate g s) = trace s /\ thr (close_gate g s) = thr s /\
   hreg (close_gate g s) = hreg s /\ kstarted (close_gate g s) = kstarted s /\ status (close_gate g s) = status s.
 Proof. unfold close_gate. destruct (gclosed s g); cbn; auto. Qed.
+Lemma cgT g s : trace (close_gate g s) = trace s. Proof. apply cg_tr. Qed.
+Lemma cgTh g s : thr (close_gate g s) = thr s. Proof. apply cg_tr. Qed.
+Lemma cgH g s : hreg (close_gate g s) = hreg s. Proof. apply cg_tr. Qed.
+Lemma cgK g s : kstarted (close_gate g s) = kstarted s. Proof. apply cg_tr. Qed.
+Lemma cgS g s : status (close_gate g s) = status s. Proof. apply cg_tr. Qed.
 Lemma cg_ni' g s : next_int (close_gate g s) = next_int s.
 Proof. unfold close_gate. destruct (gclosed s g); reflexivity. Qed.
 Lemma cc_tr c s : trace (close_cap c s) = trace s /\ thr (close_cap c s) = thr s /\
@@ -239,21 +244,20 @@ Proof.
     | match ?o with Some _ => _ | None => _ end = _ => destruct o eqn:?
     end; try discriminate; inv H;
     repeat (match goal with H : context [if ?x then _ else _] |- _ => destruct x eqn:? end).
-  all: try (destruct (cg_tr (c_gen c) s) as (K1 & K2 & K3 & K4 & K5)).
   all: try (eapply Cb_step0 with (t := t) (nt := 0); [exact CI|exact NN
-            |rewrite TR; corec; rewrite ?H1, ?K1; reflexivity|rewrite HR; corec; rewrite ?H3, ?K3; reflexivity
-            |rewrite KS; corec; rewrite ?H4, ?K4; reflexivity|rewrite ST; corec; rewrite ?H5, ?K5; auto
-            |rewrite TH; corec; rewrite ?H2, ?K2; apply oth_plain
-            |rewrite TH; corec; rewrite ?H2, ?K2; apply upd_same
-            |intros ? X; subst; destruct NO|intros ? X; subst; destruct NO|exact OK]; fail).
+            |rewrite TR; corec; rewrite ?H1, ?cgT; reflexivity|rewrite HR; corec; rewrite ?H3, ?cgH; reflexivity
+            |rewrite KS; corec; rewrite ?H4, ?cgK; reflexivity|rewrite ST; corec; rewrite ?H5, ?cgS; auto
+            |rewrite TH; corec; rewrite ?H2, ?cgTh; apply oth_plain
+            |rewrite TH; corec; rewrite ?H2, ?cgTh; apply upd_same
+            |intros ? X; subst; destruct NO|intros ? X; subst; destruct NO|first [exact OK|intros; assumption|intros k0 X0 P0; pose proof (OK k0 X0 P0) as Q0; discriminate Q0]]; fail).
   all: try (eapply Cb_step1 with (t := t) (nt := 0); [exact CI|exact NN
-            |rewrite TR; corec; reflexivity|rewrite HR; corec; reflexivity
-            |rewrite KS; corec; reflexivity|rewrite ST; corec; auto
+            |rewrite TR; corec; rewrite ?cgT; reflexivity|rewrite HR; corec; rewrite ?cgH; reflexivity
+            |rewrite KS; corec; rewrite ?cgK; reflexivity|rewrite ST; corec; rewrite ?cgS; auto
             |cbn; intros X; first [discriminate X | split; [discriminate|]];
              repeat match goal with H : _ && _ = true |- _ => apply andb_true_iff in H; destruct H end; auto
-            |rewrite TH; corec; apply oth_plain
-            |rewrite TH; corec; apply upd_same
-            |intros ? X; subst; destruct NO|intros ? X; subst; destruct NO|exact OK]; fail).
+            |rewrite TH; corec; rewrite ?cgTh; apply oth_plain
+            |rewrite TH; corec; rewrite ?cgTh; apply upd_same
+            |intros ? X; subst; destruct NO|intros ? X; subst; destruct NO|first [exact OK|intros; assumption|intros k0 X0 P0; pose proof (OK k0 X0 P0) as Q0; discriminate Q0]]; fail).
 Qed.
 
 Lemma Cb_enter s t :
